@@ -12,6 +12,16 @@ CLAIMS = {
             'TLC walks every zone of zonedbx through TzSem.tla (zic generation + merge semantics) and judges, in the state where each walk completes, the run-length trace recorded from a dense sweep of the real ExtendedZoneProcessor (every grid instant of 2000..2049, each change bisected to the second) and zic/zdump\'s trace of the same lines; in the other direction every transition the spec derives is probed in the code at t-1, t, t+1, and ZonedDateTime fields are compared with the shifted UTC fields. Complete at the sweep grid for all 387 zones; the property is piecewise constant so this decides it rather than samples it.',
             'Trusted: zic/zdump (glibc 2.36) as oracle for the recorded lines; hostshim stand-ins for Arduino/AceCommon; reconstruction of the source from the comments recorded beside each table entry. Quick tier grid is 300 s (changes narrower than the grid that revert inside it could be missed), thorough 30 s.',
             '§4.3, §6-C01'),
+    'C02': ('model_checking',
+            'TLA+ spec TzSem.tla checked by TLC; trace validation of dense-sweep traces of the real BasicZoneProcessor; trace equality Basic vs Extended; guarded hook counts dropped cache entries',
+            'Same machinery as C01 applied to the 268 zones of zonedb through BasicZoneProcessor (TLC judges the recorded run-length trace of every zone against TzSem.tla, zic validates the spec, every spec transition is probed at t-1,t,t+1); every zone shared with zonedbx is swept through ExtendedZoneProcessor too and the two traces (offset, DST amount, abbreviation) must be identical; hook H1 shows that no year 1999..2050 of any zone needs a sixth cache slot.',
+            'Trusted: zic/zdump, hostshim, source reconstruction from table comments. Quick grid 60 s, thorough 1 s (basic) / 60 s (extended twin; the extended side at 1 s is C01).',
+            '§4.3, §6-C02'),
+    'C07': ('model_checking',
+            'TLA+ definition of wall-clock resolution (TzSem.tla: Cands/Allowed) checked by TLC (total, normalised at every breakpoint); trace validation of run-length traces of the real ZonedDateTime::forComponents over windows of wall time',
+            'TLC derives, from the walk of each zone, which <<shift, offset>> resolutions are allowed for a wall time (unique: that occurrence; overlap: the later one for Extended, either for Basic; gap: the offset before the gap) and checks the recorded run-length trace of forComponents() at the start of every recorded piece and at every wall-time breakpoint inside it; the harness sweeps every wall minute within +-200 min of every transition plus seeded random minutes (quick) or every wall minute of 2000..2049 (thorough), bisects result changes to the second and checks normalisation natively for every call.',
+            'Trusted: zic pieces only select the windows (the verdict is TLC\'s on the spec\'s own pieces, which C01/C02 validate against zic); wall times within 16 h of the ends of the range are out of scope.',
+            '§4.3, §6-C07'),
 }
 
 PLANNED = {
